@@ -31,7 +31,13 @@ def load_known(prop) -> List[dict]:
 
 def match_known(known: List[dict], sig: Dict[str, str]) -> Optional[dict]:
     for k in known:
-        if all(str(sig.get(a)) == str(b) for a, b in k['match'].items()):
+        ok = True
+        for a, b in k['match'].items():
+            if a == 'construct':
+                ok = ok and b in (sig.get('constructs') or [])
+            else:
+                ok = ok and str(sig.get(a)) == str(b)
+        if ok:
             return k
     return None
 
@@ -81,11 +87,11 @@ class Outcome:
     def finish(self) -> int:
         for k in self.known_hit.values():
             print(f'KNOWN-FINDING: property={self.prop} {k["what"]}')
+        for w in self.inconclusive[:30]:
+            print(f'INCONCLUSIVE property={self.prop} {w}')
         if self.violations:
             return 1
         if self.inconclusive or self.unreproduced:
-            for w in self.inconclusive[:20]:
-                print(f'INCONCLUSIVE property={self.prop} {w}')
             return 2
         return 0
 
